@@ -136,6 +136,9 @@ func localTree(root string) (*stack.Opts, []string, error) {
 			}
 		}
 	}
+	// a path whose suffix exists under the local Go root / GOPATH source tree, but without "src" in front of it
+	seeds = append(seeds, "goroutine 1 [running]:\nfmt.Println(0x1)\n\t/x/fmt/print.go:10 +0x1\n", "goroutine 1 [running]:\nexample.com/p.Do(0x1)\n\t/y/example.com/p/file.go:4 +0x1\n",
+		"goroutine 1 [running]:\nfmt.Println(0x1)\n\t/fmt/print.go:10 +0x1\nexample.com/p.Do(0x1)\n\t/example.com/p/file.go:4 +0x1\n")
 	// unbalanced brackets, several at once
 	for _, fn := range []string{"main.g(0x1}})", "main.g({{0x1, 0x2}}}}, 0x3)", "main.g({{{{{{0x1}}}}}})", "main.g(}{)", "main.g({0x1, {0x2}}, }, {)"} {
 		seeds = append(seeds, fmt.Sprintf("goroutine 1 [running]:\n%s\n\t%s/main.go:8 +0x1d\n", fn, m))
